@@ -568,6 +568,9 @@ class Surrogates(Cached):
         :return: the Pearson correlation test matrix.
         """
         (N, n_time) = original_data.shape
+        if surrogates.shape != original_data.shape:
+            raise ValueError("original_data and surrogates must have the "
+                             "same shape [index, time].")
         return _test_pearson_correlation(to_cy(original_data, DFIELD),
                                          to_cy(surrogates, DFIELD),
                                          N, n_time)
@@ -594,6 +597,11 @@ class Surrogates(Cached):
         :return: the mutual information test matrix.
         """
         (N, n_time) = original_data.shape
+        if surrogates.shape != original_data.shape:
+            raise ValueError("original_data and surrogates must have the "
+                             "same shape [index, time].")
+        if n_bins < 1:
+            raise ValueError("n_bins must be a positive integer.")
         #  Calculate symbolic time series and histograms
         #  Calculate 2D histograms and mutual information
         #  mi[i,j] gives the mutual information between the ith original_data
